@@ -98,11 +98,12 @@ def evaluate_edits(case):
         if isinstance(check, Raised) or check == original:
             return bad("single edit %r of %r leaves the check %r unchanged (n=%d): %r"
                        % (edit, strand, original, n, check), labels)
-        decoded = lib_call(dsw.decode, dna_sequence=mutated, bit_length=2 * len(mutated) + 2, accessor=complete,
-                           start_index=0, vt_check=original)
-        if not (isinstance(decoded, Raised) and decoded.type is ValueError):
-            return bad("decode accepted the single-edit neighbour %r of %r with the original check %r: %r"
-                       % (mutated, strand, original, decoded), labels)
+        for fast in (False, True):
+            decoded = lib_call(dsw.decode, dna_sequence=mutated, bit_length=2 * len(mutated) + 2, accessor=complete,
+                               start_index=0, vt_check=original, is_faster=fast)
+            if not (isinstance(decoded, Raised) and decoded.type is ValueError):
+                return bad("decode (is_faster=%s) accepted the single-edit neighbour %r of %r with the original "
+                           "check %r: %r" % (fast, mutated, strand, original, decoded), labels)
     labels.append("neighbours:%s" % ("0" if count == 0 else ("1-99" if count < 100 else "100+")))
     return Outcome(True, len(strand) >= 2, labels)
 
